@@ -284,11 +284,23 @@ call_function(ostream &out, int indent_level, bool convert_result,
  */
 void FunctionRemap::
 write_orig_prototype(ostream &out, int indent_level, bool local, int num_default_args) const {
+  ostringstream strm;
   if (local) {
-    _cppfunc->output(out, indent_level, nullptr, false, num_default_args);
+    _cppfunc->output(strm, indent_level, nullptr, false, num_default_args);
   } else {
-    _cppfunc->output(out, indent_level, &parser, false, num_default_args);
+    _cppfunc->output(strm, indent_level, &parser, false, num_default_args);
   }
+
+  // Since this ends up within a comment in the generated code, make sure that
+  // it cannot terminate that comment (a default value may be a string literal
+  // containing those characters).
+  string prototype = strm.str();
+  size_t p = 0;
+  while ((p = prototype.find("*/", p)) != string::npos) {
+    prototype.insert(p + 1, " ");
+    p += 3;
+  }
+  out << prototype;
 }
 
 /**
